@@ -39,7 +39,7 @@ RULE = ('cases: models a exp(-b x), c exp(-b x), a exp(-b x) + c, a cosh(b (x - 
 ASSUMPTIONS = ['the implicit-function rule is judged at the point the minimiser returned (stationarity is judged separately)',
                'stationarity in units of the parameter error: Levenberg-Marquardt 1e-6 + 2e-7 sqrt(cond chi2) (forward-difference Jacobian), '
                'ODR 1e-5 + 4 sqrt(1.5e-8 chi2) (sstol = sqrt(eps) on the sum of squares), Nelder-Mead / Powell 2e-3, migrad 5e-3',
-               'sensitivities: 1e-5 of the no-cancellation scale (autograd), 2e-4 (num_grad), plus 1e-13 cond(H), plus twice the reference\'s own error estimate |H^-1| |dH| |S| (dH = difference of two extrapolated finite-difference Hessians with base steps h and h/2), which is normwise and therefore matters for rows of the sensitivity matrix that are small compared with the others',
+               'sensitivities: 1e-8 of the no-cancellation scale (autograd Hessians are exact to rounding), 2e-4 (num_grad), plus 1e-13 cond(H), plus twice the reference\'s own error estimate |H^-1| |dH| |S| (dH = difference of two extrapolated finite-difference Hessians with base steps h and h/2), which is normwise and therefore matters for rows of the sensitivity matrix that are small compared with the others',
                're-fit experiment: central differences at eps = 0.1, 0.05 (LM) / 0.4, 0.2 (ODR) errors, Richardson-extrapolated; tolerance (2e-4 + 3 d_LM/0.05) resp. (1e-3 + 3 d_ODR/0.2) of |S_ki| + sigma_k/error_i plus half the difference of the two estimates, d = admissible distance of a returned point from the minimum (limits what a re-fit can resolve)',
                'reference Hessians: Richardson-extrapolated central differences of complex-step gradients; problems on which the two step '
                'sizes disagree by more than 1e-4, or by more than 10 / cond(H), are discarded',
@@ -664,11 +664,11 @@ def run_ls(ctx, idx, rng):
         ctx.violation('ls:not-stationary', {'what': what, 'newton_step_in_sigma': step, 'tol': stol, 'grad': a['grad'], 'cond': a['cond']})
     ctx.count('stationarity_judged')
     # reported numbers
-    ctx.close(res.chisquare, a['chi2'], 'ls:chisquare-at-returned-parameters', what, rtol=1e-8, scale=max(1.0, a['chi2']))
+    ctx.close(res.chisquare, a['chi2'], 'ls:chisquare-at-returned-parameters', what, rtol=1e-10, scale=max(1.0, a['chi2']))
     ctx.equal(int(res.dof), n - k + len(spec), 'ls:dof', what)
-    ctx.close(res.p_value, gls.chi2_sf(float(res.chisquare), n - k + len(spec)), 'ls:p_value', what, rtol=0.0, atol=1e-10)
+    ctx.close(res.p_value, gls.chi2_sf(float(res.chisquare), n - k + len(spec)), 'ls:p_value', what, rtol=0.0, atol=1e-13)
     # (ii) sensitivities
-    rt = (2e-4 if o['num_grad'] else 1e-5) + 1e-13 * a['cond']
+    rt = (2e-4 if o['num_grad'] else 1e-8) + 1e-13 * a['cond']
     ins = snaps + psnaps
     errs = list(dy) + list(perr)
     Sref = np.hstack([a['Sy'], a['Sp']])
@@ -817,11 +817,11 @@ def run_tls(ctx, idx, rng):
     if np.any(step > stol):
         ctx.violation('tls:not-stationary', {'what': what, 'newton_step_in_sigma': step, 'grad': a['grad'], 'cond': a['cond']})
     ctx.count('stationarity_judged')
-    ctx.close(res.odr_chisquare, a['chi2'], 'tls:odr_chisquare-at-returned-point', what, rtol=1e-8, scale=max(1.0, a['chi2']))
+    ctx.close(res.odr_chisquare, a['chi2'], 'tls:odr_chisquare-at-returned-point', what, rtol=1e-10, scale=max(1.0, a['chi2']))
     ctx.equal(int(res.dof), n - k, 'tls:dof', what)
-    ctx.close(res.p_value, gls.chi2_sf(float(res.odr_chisquare), n - k), 'tls:p_value', what, rtol=0.0, atol=1e-10)
+    ctx.close(res.p_value, gls.chi2_sf(float(res.odr_chisquare), n - k), 'tls:p_value', what, rtol=0.0, atol=1e-13)
     # (ii)
-    rt = (2e-4 if num_grad else 1e-5) + 1e-13 * a['cond']
+    rt = (2e-4 if num_grad else 1e-8) + 1e-13 * a['cond']
     inputs = xflat + list(P['ys'])
     ins = [snap(o_) for o_ in inputs]
     errs = list(np.asarray(dx).ravel()) + list(dy)
@@ -1070,10 +1070,10 @@ def hard_ls(ctx, P, mech, what, perturb=False, cond_ref=None, args=None):
     if np.any(step > stol):
         ctx.violation(mech + ':not-stationary', {'what': what, 'newton_step_in_sigma': step, 'tol': stol, 'cond': a['cond']})
     ctx.count('stationarity_judged')
-    ctx.close(res.chisquare, a['chi2'], mech + ':chisquare-at-returned-parameters', what, rtol=1e-8, scale=max(1.0, a['chi2']))
+    ctx.close(res.chisquare, a['chi2'], mech + ':chisquare-at-returned-parameters', what, rtol=1e-10, scale=max(1.0, a['chi2']))
     ctx.equal(int(res.dof), n - k + len(spec), mech + ':dof', what)
-    ctx.close(res.p_value, gls.chi2_sf(float(res.chisquare), n - k + len(spec)), mech + ':p_value', what, rtol=0.0, atol=1e-10)
-    rt = (2e-4 if P['num_grad'] else 1e-5) + 1e-13 * cond
+    ctx.close(res.p_value, gls.chi2_sf(float(res.chisquare), n - k + len(spec)), mech + ':p_value', what, rtol=0.0, atol=1e-13)
+    rt = (2e-4 if P['num_grad'] else 1e-8) + 1e-13 * cond
     ins = snaps + [snap(v) for _, _, v in spec]
     errs = list(dy) + perr
     Sref = np.hstack([a['Sy'], a['Sp']])
@@ -1173,10 +1173,10 @@ def hard_tls(ctx, P, mech, what, perturb=False, cond_ref=None, args=None):
         ctx.violation(tag, {'what': what, 'newton_step_in_sigma': step, 'tol': stol, 'cond': a['cond'], 'chisquare_at_returned_point': a['chi2'],
                             'message': [str(m_) for m_ in res.message]})
     ctx.count('stationarity_judged')
-    ctx.close(res.odr_chisquare, a['chi2'], mech + ':odr_chisquare-at-returned-point', what, rtol=1e-8, scale=max(1.0, a['chi2']))
+    ctx.close(res.odr_chisquare, a['chi2'], mech + ':odr_chisquare-at-returned-point', what, rtol=1e-10, scale=max(1.0, a['chi2']))
     ctx.equal(int(res.dof), n - k, mech + ':dof', what)
-    ctx.close(res.p_value, gls.chi2_sf(float(res.odr_chisquare), n - k), mech + ':p_value', what, rtol=0.0, atol=1e-10)
-    rt = (2e-4 if P['num_grad'] else 1e-5) + 1e-13 * cond
+    ctx.close(res.p_value, gls.chi2_sf(float(res.odr_chisquare), n - k), mech + ':p_value', what, rtol=0.0, atol=1e-13)
+    rt = (2e-4 if P['num_grad'] else 1e-8) + 1e-13 * cond
     ins = [snap(o_) for o_ in xflat + list(P['ys'])]
     errs = list(np.asarray(dx).ravel()) + list(dy)
     Sref = np.hstack([a['Sx'][:k], a['Sy'][:k]])
